@@ -1,7 +1,7 @@
 #!/bin/bash
 # usage: tools/seed_eval_copy.sh <seed dir> <PROPERTY> [tier]  -- evaluates a seeded patch on a scratch copy of /repo (does not touch /repo)
 set -u
-dir=$1; prop=$2; tier=${3:-quick}
+dir=$(readlink -f "$1"); prop=$2; tier=${3:-quick}
 work=$(mktemp -d /tmp/repo_eval_XXXX)
 rsync -a --exclude .git /repo/ $work/
 (cd $work && patch -p1 -s < "$dir/patch.diff") || { echo "patch failed"; rm -rf $work; exit 2; }
